@@ -145,6 +145,10 @@ def _build(case):
         if via in ("reuse", "unitskw"):
             kw["ref"] = "verif"  # the free-text reference field of the record
         obj = Henry(H0, Td, **kw) if units is None else HenryWithUnits(H0, Td, **kw)
+        if via == "plainunits" and units is not None:
+            # the plain class given quantities; the units object is passed with every call
+            obj = Henry(H0, Td, **kw)
+            bkw = dict(bkw, units=units)
         if via == "unitskw" and units is not None:
             bkw = dict(bkw, units=units)  # the units object passed explicitly instead of HenryWithUnits' default
         if via == "reuse":  # the instance has answered for another temperature before
